@@ -255,6 +255,9 @@ def gen_history(r, L):
             steps.append({"k": "closure", "limits": [r.randint(1, 50), r.randint(1, 50)], "x": r.randint(60, 99)})
         elif x < 0.8:
             steps.append({"k": "noise", "x": -r.randint(1, 100)})
+        elif x < 0.805 and engine == "sync":
+            # long strings that are created, reported once and dropped (so that later ones may land at the same address)
+            steps.append({"k": "longstr", "n": r.randint(5, 30), "len": r.choice([300, 1000, 5000])})
         elif x < 0.815 and engine == "sync":
             # the limits of a Repr object are changed after the contracts using it were defined (start-up code adjusting
             # icontract.aRepr or a shared user Repr): the limits in force at the time of the violation apply
@@ -333,6 +336,20 @@ def run_history(L, h, by_id):
                     del fn
                 if st.get("gc"):
                     gc.collect()  # the checkers refer to themselves: only the cyclic collector frees them
+            return
+        if k == "longstr":
+            ind = reprlib.Repr()
+            for a_, v_ in DEFAULT_REPR.items():
+                setattr(ind, a_, v_)
+            for j in range(st["n"]):
+                s_ = chr(ord("a") + (j % 26)) * st["len"]
+                try:
+                    L.f03(s=s_)
+                    msg = "NO-VIOLATION"
+                except icontract.ViolationError as e:
+                    msg = str(e)
+                results.append(("__longstr__", (st["len"], j), (msg, ind.repr(s_)), {}))
+                del s_
             return
         if k == "arepr":
             rp = L.SHARED_REPR if st["target"] == "shared" else icontract.aRepr
@@ -469,6 +486,20 @@ def worker(argv):
                             "rule": "C20.R1",
                             "classifier": "message-depends-on-earlier-violation-of-the-same-condition",
                             "detail": {"case": "closure", "limits": list(order), "second_violation": msg[0][:300], "fresh_twin": msg[1][:300], "history": hi},
+                            "widx": widx,
+                            "history": hi,
+                        }
+                    )
+                continue
+            if cid == "__longstr__":
+                n_msgs += 1
+                ms_ = re.search(r"(?:^|: )s was (.*)$", msg[0], re.M)
+                if msg[0] != "NO-VIOLATION" and (not ms_ or ms_.group(1) != msg[1]):
+                    violations.append(
+                        {
+                            "rule": "C20.R1",
+                            "classifier": "long-string-rendered-as-another-value",
+                            "detail": {"case": "longstr", "length": order[0], "index": order[1], "shown": (ms_.group(1)[:60] if ms_ else None), "want": msg[1][:60], "history": hi},
                             "widx": widx,
                             "history": hi,
                         }
